@@ -24,6 +24,8 @@ Cond(a, b, x, y) == [t |-> "cond", a |-> a, b |-> b, x |-> x, y |-> y]
 \* { [kv in keys]opt: v } - the value type may mention the key variable as Param(kv)
 MappedK(kv, keys, v, opt) == [t |-> "mapped", kv |-> kv, keys |-> keys, v |-> v, opt |-> opt]
 Mapped(keys, v, opt) == MappedK("K", keys, v, opt)
+\* `{ [K in keys]+?: v }`: the explicit spelling of the optional modifier
+MappedPlus(keys, v) == [t |-> "mapped", kv |-> "K", keys |-> keys, v |-> v, opt |-> TRUE, plus |-> TRUE]
 EnumRef(n)    == [t |-> "enumref", n |-> n]
 EnumMember(n, m) == [t |-> "enummember", n |-> n, m |-> m]
 TypeOf(n)     == [t |-> "typeof", n |-> n]
@@ -94,7 +96,10 @@ Ev(T, env) ==
          \* one property per literal key, the key variable bound to that key's literal type; a string key gives an index signature
          LET ks == SetToSeq(KeyLits(T.keys, env))
              Body(kt) == Ev(Subst(T.v, (T.kv :> kt)), env)
-         IN Obj([i \in DOMAIN ks |-> Prop(ks[i], Body(LS(ks[i])), T.opt)],
+             \* a mapped type over `keyof X` is homomorphic: it keeps the optional modifier of X's properties
+             src == IF T.keys.t = "keyof" THEN ObjOf(T.keys.a, env) ELSE {}
+             SrcOpt(k) == Cardinality(src) = 1 /\ LET o == CHOOSE o \in src : TRUE IN HasProp(o, k) /\ o.ps[PropIdx(o, k)].opt
+         IN Obj([i \in DOMAIN ks |-> Prop(ks[i], Body(LS(ks[i])), T.opt \/ SrcOpt(ks[i]))],
                 IF KeyHasString(T.keys, env) THEN <<Ix(TString, IF T.opt THEN AddUndef(Body(TString)) ELSE Body(TString))>> ELSE <<>>)
     [] T.t = "enumref" -> LET d == DeclOf(env, T.n) IN MkUnion({Lit(d.ms[i].v) : i \in DOMAIN d.ms})
     [] T.t = "enummember" -> LET d == DeclOf(env, T.n) IN Lit(d.ms[CHOOSE i \in DOMAIN d.ms : d.ms[i].name = T.m].v)
@@ -105,7 +110,12 @@ Ev(T, env) ==
                                   !.ix = [i \in DOMAIN T.ix |-> [kt |-> Ev(T.ix[i].kt, env), vt |-> Ev(T.ix[i].vt, env)]]]
     [] T.t \in {"union", "inter"} -> [T EXCEPT !.ms = [i \in DOMAIN T.ms |-> Ev(T.ms[i], env)]]
     [] T.t = "deco"  -> Ev(T.a, env)
-    [] T.t = "app"   -> Ev(Instantiate(env, T.n, T.args), env)
+    \* an instance of a generic interface with an extends clause: the clause sees the interface's type parameters
+    [] T.t = "app"   -> LET d == DeclOf(env, T.n) IN
+                        IF "ext" \in DOMAIN d /\ d.ext # <<>>
+                        THEN LET sg == [k \in {d.params[i] : i \in DOMAIN d.params} |-> T.args[CHOOSE i \in DOMAIN d.params : d.params[i] = k]]
+                             IN Ev(Inter(<<Instantiate(env, T.n, T.args)>> \o [i \in DOMAIN d.ext |-> Subst(d.ext[i], sg)]), env)
+                        ELSE Ev(Instantiate(env, T.n, T.args), env)
     \* a reference to an interface with extends is its merged object; other references stay (recursion is handled by M3)
     [] T.t = "ref"   -> LET d == DeclOf(env, T.n) IN
                         IF "ext" \in DOMAIN d /\ d.ext # <<>> THEN Ev(Inter(<<d.ty>> \o d.ext), env)
